@@ -53,10 +53,19 @@ inductive EndMark where
   | v | t | n | s | c | cc | other
   deriving DecidableEq, Repr, Inhabited
 
+/-- the length tests of the byte-order-mark handling of one front-end (regenerated from the source) -/
+structure BomBounds where
+  readerLoop : Nat := 4     -- `cnt < 4` of the loop "a BOM has to be seen whole" (ParseReader / Load)
+  readerDetect : Nat := 3   -- `3 < len(buf)` of the BOM test of the reader entry point
+  bytesDetect : Nat := 3    -- `3 < len(buf)` of the BOM test of the `[]byte` entry point
+  deriving DecidableEq, Repr, Inhabited
+
 structure Tables where
   act : Mode → UInt8 → Act
   fin : Mode → EndMark
   escByte : UInt8 → UInt8
+  bomP : BomBounds := {}    -- sen.Parser.Parse / ParseReader
+  bomT : BomBounds := {}    -- sen.Tokenizer.Parse / Load
 
 /-- entries of the parser's build stack `p.stack` -/
 inductive Item where
@@ -776,14 +785,40 @@ def St.entry (cfg : Cfg) (prev : St) : St :=
               lastStrKey := if cfg.keepPlus then prev.lastStrKey else [],
               exkey := if cfg.keepExkey then prev.exkey else false }
 
-/-- entry point on an instance left in state `prev`: `chunks` are the successive read results (one
-chunk for the `[]byte` entry points) -/
-def call (prev : St) (chunks : List Bytes) : Except Err Out :=
-  let cs := if cfg.reader then topUp (chunks.filter (!·.isEmpty)) else chunks
+/-- `for err == nil && 0 < cnt && cnt < n && buf[0] == 0xEF { read more }`: the reader entry points top the
+first read up (`n` = 4 in the source: a BOM has to be seen whole) -/
+def topUpAuxN (n : Nat) (acc : Bytes) : List Bytes → List Bytes
+  | [] => [acc]
+  | d :: rest =>
+    if acc.length < n && acc.head? = some 0xEF then topUpAuxN n (acc ++ d) rest else acc :: d :: rest
+
+def topUpN (n : Nat) : List Bytes → List Bytes
+  | [] => []
+  | c :: cs => topUpAuxN n c cs
+
+/-- `if k < len(buf) && buf[0] == 0xEF && buf[1] == 0xBB && buf[2] == 0xBF { skip = 3 }` (reader entry points) -/
+def bomRuleReaderN (k : Nat) (bs : Bytes) : BomRes :=
+  match bs with
+  | 0xEF :: 0xBB :: 0xBF :: r => if k < 3 + r.length then .strip r else .keep
+  | _ => .keep
+
+/-- `if k < len(buf) && buf[0] == 0xEF { if buf[1] == 0xBB && buf[2] == 0xBF { buf[3:] } else "expected BOM" }`
+(`[]byte` entry points) -/
+def bomRuleN (k : Nat) (bs : Bytes) : BomRes :=
+  match bs with
+  | 0xEF :: b1 :: b2 :: r =>
+    if k < 3 + r.length then (if b1 = 0xBB && b2 = 0xBF then .strip r else .bad) else .keep
+  | _ => .keep
+
+/-- an entry point, given its BOM handling: `tu` tops the first read up, `brr` / `br` is the BOM test of
+the reader / `[]byte` entry point -/
+def callWith (tu : List Bytes → List Bytes) (brr br : Bytes → BomRes) (prev : St) (chunks : List Bytes) :
+    Except Err Out :=
+  let cs := if cfg.reader then tu (chunks.filter (!·.isEmpty)) else chunks
   match cs with
   | [] => finish T cfg (prev.entry cfg) {}
   | c :: rest =>
-    match (if cfg.reader then bomRuleReader c else bomRule c) with
+    match (if cfg.reader then brr c else br c) with
     | .bad => .error { line := 1, col := 3, kind := .bom }
     | .strip r =>
       match runChunks T cfg (prev.entry cfg) {} (r :: rest) with
@@ -793,6 +828,14 @@ def call (prev : St) (chunks : List Bytes) : Except Err Out :=
       match runChunks T cfg (prev.entry cfg) {} (c :: rest) with
       | .error e => .error e
       | .ok (s, p) => finish T cfg s p
+
+def Tables.bom (T : Tables) (cfg : Cfg) : BomBounds := if cfg.tokenizer then T.bomT else T.bomP
+
+/-- entry point on an instance left in state `prev`: `chunks` are the successive read results (one
+chunk for the `[]byte` entry points); the length tests of the BOM handling are the regenerated ones -/
+def call (prev : St) (chunks : List Bytes) : Except Err Out :=
+  callWith T cfg (topUpN (T.bom cfg).readerLoop) (bomRuleReaderN (T.bom cfg).readerDetect)
+    (bomRuleN (T.bom cfg).bytesDetect) prev chunks
 
 /-- a call on a fresh instance -/
 def run (chunks : List Bytes) : Except Err Out := call T cfg {} chunks
